@@ -81,7 +81,27 @@ func c11sDraw(rt *rapid.T) *c11sCase {
 		return append(out, specs[pos:]...)
 	}
 	cs := &c11sCase{}
-	switch rapid.IntRange(0, 3).Draw(rt, "shape") {
+	switch rapid.IntRange(0, 4).Draw(rt, "shape") {
+	case 4:
+		// two changes: the first introduces a package (import and use), the
+		// second has that import on a context or '-' line and rewrites
+		// something else; the package is still used afterwards (or, with
+		// the '-' line and the use rewritten too, it is not)
+		kind := rapid.SampledFrom([]string{"context", "minus-still-used", "minus-unused"}).Draw(rt, "secondKind")
+		cs.Shape = "import-added-by-an-earlier-change:" + kind
+		cs.Patch = "@@\nvar x expression\n@@\n+import \"example.com/lib/addp\"\n\n-legacyDo(x)\n+addp.Do(x)\n\n"
+		switch kind {
+		case "context":
+			cs.Patch += "@@\nvar y expression\n@@\n import \"example.com/lib/addp\"\n\n-otherDo(y)\n+betterDo(y)\n"
+			cs.Expected = expect(`"example.com/lib/addp"`)
+		case "minus-still-used":
+			cs.Patch += "@@\nvar y expression\n@@\n-import \"example.com/lib/addp\"\n\n-otherDo(y)\n+betterDo(y)\n"
+			cs.Expected = expect(`"example.com/lib/addp"`)
+		default:
+			cs.Patch += "@@\nvar y expression\n@@\n-import \"example.com/lib/addp\"\n\n-addp.Do(y)\n+finalDo(y)\n"
+			cs.Expected = expect()
+		}
+		cs.File = "package foo\n\n" + c11sImports(by, grouped) + uses() + "func sites() {\n\tlegacyDo(1)\n\totherDo(2)\n}\n"
 	case 0:
 		// the path of a '+' import is already imported, but under a name the
 		// patch does not mention: that import is a bystander, the '+' import
